@@ -50,8 +50,9 @@ where
                 // hand side of a production and work backwards. While epsilon is true, any
                 // nonterminals we encounter have the Follow set of the production's rule added to
                 // them. As soon as we hit a token or a nonterminal that can't produce the empty
-                // string, we set epsilon to false. At that point, we simply add the first set of
-                // the following symbol to any nonterminals we encounter.
+                // string, we set epsilon to false. Independently of that, every nonterminal has
+                // the first set of what follows it in the production added to it (looking past
+                // following symbols for as long as they can produce the empty string).
                 let mut epsilon = true;
                 for sidx in (0..prod.len()).rev() {
                     let sym = prod[sidx];
@@ -72,19 +73,25 @@ where
                             if !firsts.is_epsilon_set(s_ridx) {
                                 epsilon = false;
                             }
-                            if sidx < prod.len() - 1 {
-                                match prod[sidx + 1] {
+                            // Add the first set of what follows this symbol. If the next symbol
+                            // can derive the empty string, what comes after it can follow too.
+                            for nxt_sym in &prod[sidx + 1..] {
+                                match *nxt_sym {
                                     Symbol::Token(nxt_tidx) => {
                                         if follows[usize::from(s_ridx)]
                                             .set(usize::from(nxt_tidx), true)
                                         {
                                             changed = true;
                                         }
+                                        break;
                                     }
                                     Symbol::Rule(nxt_ridx) => {
                                         if follows[usize::from(s_ridx)].or(firsts.firsts(nxt_ridx))
                                         {
                                             changed = true;
+                                        }
+                                        if !firsts.is_epsilon_set(nxt_ridx) {
+                                            break;
                                         }
                                     }
                                 }
